@@ -38,6 +38,22 @@ static bool tierThorough()
   return t && std::string(t) == "thorough";
 }
 
+// A sweep has no per-case file of its own; a sanitizer abort inside it would leave the driver without a case to
+// replay.  Before every group of configurations the sweep therefore saves "all configurations of kind `what` for
+// this extent" as the case in flight (p[0] == ALL), which array_small_one re-enumerates on replay.
+static const int ALL = -999;
+template <class Case>
+static void sweep_mark(const char *prop, const Case &c)
+{
+  pbt::Global &g = pbt::G();
+  pbt::write_file(g.outdir + "/" + g.bin + "." + prop + ".current.case", std::string(prop) + "@" + g.bin + "\n" + pbt::to_text(c) + "\n");
+}
+static void sweep_unmark(const char *prop)
+{
+  pbt::Global &g = pbt::G();
+  unlink((g.outdir + "/" + g.bin + "." + prop + ".current.case").c_str());
+}
+
 template <class T>
 static T mkval(int code);  // code in [0, 250]
 template <>
@@ -104,7 +120,7 @@ static bool shadowRange(const Shadow<T> &sh, const int D[3], const Co &b, const 
 // ------------------------------------------------------------------------------------------------
 struct AdCase
 {
-  int what = 0;  // 0 actual, 1 value range, 2 shifted, 3 sub-box, 4 accessor, 5 multi-slice
+  int what = 0;  // 0 actual, 1 value range, 2 shifted, 3 sub-box, 4 accessor, 5 multi-slice, 6 zero extents
   int dx = 1, dy = 1, dz = 1;
   std::array<int, 6> p{};  // parameters of `what` (region / shift / clip box / slice count)
   auto tie()
@@ -328,6 +344,10 @@ static void check_zero_extents()
 static ull adcase_run(const AdCase &c, Fixture *shared)
 {
   std::unique_ptr<Fixture> own;
+  if (c.what == 6) {
+    check_zero_extents();
+    return 7;
+  }
   if (!shared && c.what != 5) {
     own.reset(new Fixture(c.dx, c.dy, c.dz));
     shared = own.get();
@@ -350,80 +370,108 @@ static ull adcase_run(const AdCase &c, Fixture *shared)
   }
 }
 
+// every configuration of kind `what` for the extent D: `c` is updated in place and `run()` called for each
+template <class F>
+static void for_configs(int what, const int D[3], AdCase &c, F &&run)
+{
+  c.what = what;
+  c.p = {};
+  switch (what) {
+  case 5:
+    for (int ns = 1; ns <= 5; ++ns) {
+      c.p[0] = ns;
+      run();
+    }
+    break;
+  case 1:  // every region begin < end <= extent
+  case 3:  // every clip box lower <= upper <= extent (empty boxes included)
+    for (int bx = 0; bx <= D[0]; ++bx)
+      for (int ex = bx; ex <= D[0]; ++ex)
+        for (int by = 0; by <= D[1]; ++by)
+          for (int ey = by; ey <= D[1]; ++ey)
+            for (int bz = 0; bz <= D[2]; ++bz)
+              for (int ez = bz; ez <= D[2]; ++ez) {
+                if (what == 1 && !(ex > bx && ey > by && ez > bz))
+                  continue;
+                c.p = {bx, by, bz, ex, ey, ez};
+                run();
+              }
+    break;
+  case 2:  // every shift in [-size, 2*size] per axis
+    for (int sx = -D[0]; sx <= 2 * D[0]; ++sx)
+      for (int sy = -D[1]; sy <= 2 * D[1]; ++sy)
+        for (int sz = -D[2]; sz <= 2 * D[2]; ++sz) {
+          c.p = {sx, sy, sz, 0, 0, 0};
+          run();
+        }
+    break;
+  default:  // 0, 4, 6: one configuration
+    run();
+    break;
+  }
+}
+
 static void array_small_one(const AdCase &c, pbt::Ctx &ctx)
 {
   PBT_ASSERT_MSG(c.dx >= 1 && c.dy >= 1 && c.dz >= 1 && (ull)c.dx * c.dy * c.dz <= 251, "replay: extent out of the sweep's range");
-  adcase_run(c, nullptr);
+  if (c.p[0] == ALL) {
+    const int D[3] = {c.dx, c.dy, c.dz};
+    Fixture f(c.dx, c.dy, c.dz);
+    AdCase cur = c;
+    for_configs(c.what, D, cur, [&] { adcase_run(cur, &f); });
+  } else
+    adcase_run(c, nullptr);
   ctx.nt(true);
 }
 
 static void array_small_sweep(pbt::SweepResult<AdCase> &r)
 {
   const int N = tierThorough() ? 6 : 5;
-  static const char *names[6] = {"actual get/clamp/clear", "getValueRange regions", "IndexShifted (shift,cell) reads", "SubBox (clip,cell) reads", "Accessor reads", "MultiSlice reads"};
+  static const char *names[7] = {"actual get/clamp/clear", "getValueRange regions", "IndexShifted (shift,cell) reads", "SubBox (clip,cell) reads", "Accessor reads", "MultiSlice reads",
+      "zero-extent arrays"};
   AdCase c;
-  ull configs[6] = {0, 0, 0, 0, 0, 0}, reads[6] = {0, 0, 0, 0, 0, 0};
+  ull configs[7] = {0, 0, 0, 0, 0, 0, 0}, reads[7] = {0, 0, 0, 0, 0, 0, 0};
   try {
-    check_zero_extents();
+    c.what = 6;
+    c.p = {};
+    c.p[0] = ALL;
+    sweep_mark("array_small", c);
+    configs[6] = 1;
+    reads[6] = adcase_run(c, nullptr);
+    r.evaluations += reads[6];
     for (c.dx = 1; c.dx <= N; ++c.dx)
       for (c.dy = 1; c.dy <= N; ++c.dy)
         for (c.dz = 1; c.dz <= N; ++c.dz) {
           const int D[3] = {c.dx, c.dy, c.dz};
           const bool nonCubic = c.dx != c.dy && c.dy != c.dz && c.dx != c.dz;
           Fixture f(c.dx, c.dy, c.dz);
-          auto run = [&]() {
-            const ull n = adcase_run(c, &f);
-            configs[c.what]++;
-            reads[c.what] += n;
-            r.evaluations += n;
-            if (nonCubic)
-              r.nontrivial += n;
-          };
-          c.p = {};
-          c.what = 0;
-          run();
-          c.what = 4;
-          run();
-          for (int ns = 1; ns <= 5; ++ns) {
-            c.what = 5;
+          static const int order[6] = {0, 4, 5, 3, 1, 2};
+          for (int what : order) {
+            c.what = what;
             c.p = {};
-            c.p[0] = ns;
-            run();
+            c.p[0] = ALL;
+            sweep_mark("array_small", c);
+            for_configs(what, D, c, [&] {
+              const ull n = adcase_run(c, &f);
+              configs[c.what]++;
+              reads[c.what] += n;
+              r.evaluations += n;
+              if (nonCubic)
+                r.nontrivial += n;
+              if (nonCubic && c.dx > 2 && r.samples.size() < 4
+                  && ((what == 1 && c.p[0] == 1 && r.samples.size() < 2) || (what == 2 && c.p[0] == -2 && c.p[1] == 3 && r.samples.size() >= 2)))
+                r.samples.push_back(c);
+            });
           }
-          // every region / clip box: lower <= upper per axis (sub-box: empty boxes included; range: begin < end)
-          for (int bx = 0; bx <= D[0]; ++bx)
-            for (int ex = bx; ex <= D[0]; ++ex)
-              for (int by = 0; by <= D[1]; ++by)
-                for (int ey = by; ey <= D[1]; ++ey)
-                  for (int bz = 0; bz <= D[2]; ++bz)
-                    for (int ez = bz; ez <= D[2]; ++ez) {
-                      c.p = {bx, by, bz, ex, ey, ez};
-                      c.what = 3;
-                      run();
-                      if (ex > bx && ey > by && ez > bz) {
-                        c.what = 1;
-                        run();
-                        if (r.samples.size() < 2 && nonCubic && c.dx > 2 && bx == 1)
-                          r.samples.push_back(c);
-                      }
-                    }
-          // every shift in [-size, 2*size] per axis
-          for (int sx = -D[0]; sx <= 2 * D[0]; ++sx)
-            for (int sy = -D[1]; sy <= 2 * D[1]; ++sy)
-              for (int sz = -D[2]; sz <= 2 * D[2]; ++sz) {
-                c.what = 2;
-                c.p = {sx, sy, sz, 0, 0, 0};
-                run();
-                if (r.samples.size() < 4 && nonCubic && c.dx > 2 && sx == -2 && sy == 3)
-                  r.samples.push_back(c);
-              }
         }
+    sweep_unmark("array_small");
   } catch (const pbt::Failure &f) {
     r.failed = true;
     r.failing = c;
     r.msg = f.msg;
+    sweep_unmark("array_small");
   }
-  for (int i = 0; i < 6; ++i) {
+  for (int i = 0; i < 7; ++i) {
     r.labels[std::string(names[i]) + ": configurations"] = configs[i];
     r.labels[std::string(names[i]) + ": comparisons"] = reads[i];
   }
@@ -757,6 +805,6 @@ static rc::Gen<ArrCase> genArrCase()
 static void register_properties()
 {
   pbt::sweep<AdCase>("array_small", array_small_sweep, array_small_one);
-  pbt::property<ArrCase>("array_history", 3000, genArrCase(), array_history);
+  pbt::property<ArrCase>("array_history", 10000, genArrCase(), array_history);
 }
 PBT_MAIN("C17_array")
